@@ -290,8 +290,12 @@ class _Rand:
         self.rng = rng
         self.log = []          # every value handed to the library (replayed into the Lean model as creation parameters)
 
+    force = None           # {upper bound: value}: boundary values of the library's own random draws (e.g. the connection check)
+
     def randint(self, a, b):
         v = self.rng.randint(a, b)
+        if self.force and b in self.force:
+            v = self.force[b]
         self.log.append((a, b, v))
         return v
 
